@@ -29,6 +29,11 @@ RULE = ("typed expression trees to depth 5 over all 13 operators, all 34 functio
         "deleted/inserted); term variables that clash with x or an engine variable; random token soups.  Non-trivial: "
         "the formula contains at least two operators/functions and the model produced a tree; distinct = distinct "
         "(text, values)")
+RULE += (" Family `shared` (drawn after `literals`): trees over one or two names, so that every variable recurs, with the unary operators "
+         ".+ .- ~ (abs floor) directly on the variables, on float64 arrays of the result's shape (2-6 rows, some variables scalar), through "
+         "Function.membership (engine values, x) and Function.evaluate (the caller's map).  On EVERY successful evaluation of the stream: "
+         "the values handed in are unchanged afterwards, a second evaluation on the same objects gives the same result and does not rewrite "
+         "the array returned first.")
 RULE += (" Family `literals` (drawn last): clusters of decimal literals that agree in their first 3..11 decimals (with duplicates and "
          "re-spellings) in scaled differences, linear combinations, ratios and random trees with a repeated sub-expression (copied as it "
          "is or with neighbouring literals); value against NumPy on the tree and against the exact model; rows whose value moves when "
@@ -408,9 +413,34 @@ def run_impl(case):
         return out
     out["postfix"] = f.root.postfix().split()
     f.variables = {k: float(v) for k, v in case["fvars"].items()}
+    x_in = dec(case["x"])
+    if case.get("route") == "evaluate":
+        # Function.evaluate(variables): the caller's own map of values (the function is not attached to an engine)
+        f = fl.Function.create("f", case["text"])
+        vmap = {k: dec(v) for k, v in case["evars"].items()}
+        vmap["x"] = x_in
+        vmap.update({k: float(v) for k, v in case["fvars"].items()})
+        handed = dict(vmap)
+
+        def call():
+            return f.evaluate(vmap)
+
+        def current(name):
+            return vmap[name]
+    else:
+        handed = {v.name: v.value for v in ivs + ovs}
+        handed["x"] = x_in
+        by_name = {v.name: v for v in ivs + ovs}
+
+        def call():
+            return f.membership(x_in)
+
+        def current(name):
+            return x_in if name == "x" else by_name[name].value
+    before = {k: np.array(v, dtype=float, copy=True) for k, v in handed.items()}
     try:
         with np.errstate(all="ignore"):
-            y = f.membership(dec(case["x"]))
+            y = call()
         n = nrows(case)
         arr = np.asarray(y, dtype=float)
         if arr.ndim == 0:
@@ -422,10 +452,37 @@ def run_impl(case):
     except Exception as ex:  # noqa: BLE001
         out["err"] = errkind(ex)
         out["msg"] = f"{type(ex).__name__}: {str(ex)[:200]}"
+    # "evaluated as ordinary mathematics": evaluating a formula is a computation FROM the values of its variables - it leaves
+    # the values handed in as they were (the engine's input / output values, the array passed as x, the caller's map), so a
+    # second evaluation on the same objects gives the same result, and an array returned earlier is not rewritten by it
+    # (the operands of fv/layouts.py are watched in the same way).  Observed on every evaluation that succeeded.
+    if out["value"] is not None:
+        try:
+            first = np.array(y, dtype=float, copy=True)
+            changed = [k for k in sorted(before) if not np.array_equal(before[k], np.asarray(current(k), dtype=float), equal_nan=True)]
+            if changed:
+                k = changed[0]
+                out["aliasing"] = (f"evaluating the formula changed the value of the variable '{k}' that was handed in: "
+                                   f"{np.asarray(current(k), dtype=float).tolist()!r} afterwards, {before[k].tolist()!r} before")
+            else:
+                with np.errstate(all="ignore"):
+                    again = np.asarray(call(), dtype=float)
+                if again.shape != first.shape or not np.array_equal(again, first, equal_nan=True):
+                    out["aliasing"] = (f"a second evaluation on the same variables gives {again.tolist()!r}, the first one gave "
+                                       f"{first.tolist()!r}")
+                elif not np.array_equal(np.asarray(y, dtype=float), first, equal_nan=True):
+                    out["aliasing"] = (f"the array returned by the first evaluation ({first.tolist()!r}) was rewritten by the second "
+                                       f"one to {np.asarray(y, dtype=float).tolist()!r}")
+                else:
+                    changed = [k for k in sorted(before) if not np.array_equal(before[k], np.asarray(current(k), dtype=float), equal_nan=True)]
+                    if changed:
+                        out["aliasing"] = f"the second evaluation changed the value of the variable '{changed[0]}' that was handed in"
+        except Exception as ex:  # noqa: BLE001
+            out["aliasing"] = f"second evaluation on the same variables: {type(ex).__name__}: {str(ex)[:160]}"
     # a history: the engine's variables are replaced by NEW objects of the same names holding other values (and one
     # variable is appended); the function, already evaluated once, must resolve to the engine's CURRENT variables,
     # exactly like a function created afterwards
-    if out["value"] is not None:
+    if out["value"] is not None and case.get("route") != "evaluate":
         try:
             def shifted(v):
                 return [u + 1.0 for u in v] if isinstance(v, list) else v + 1.0
@@ -507,6 +564,9 @@ def oracle(case):
         return False, f"'{case['text']}' did not evaluate: {r['err']} ({r['msg']})"
     if r.get("stale"):
         return False, f"'{case['text']}' does not resolve its variables to the engine's current values: {r['stale']}"
+    if r.get("aliasing"):
+        return False, (f"'{case['text']}' with {'the map' if case.get('route') == 'evaluate' else 'the engine values'} "
+                       f"{json.dumps(case['evars'])} x={case['x']}: {r['aliasing']}")
     for i in range(nrows(case)):
         ev, x = row_env(case, i)
         env = dict(ev)
@@ -720,6 +780,72 @@ def make_literals(rng):
             "evars": evars, "fvars": fvars, "outs": outs, "x": x}
 
 
+# "variables resolve to the engine's current input/output values, the term's own variables and x, and array operands are
+# evaluated elementwise": a variable may occur any number of times in a formula, every occurrence stands for the same value,
+# and the unary operators .+ .- ~ ! apply to a variable as to any other operand.  In the random trees above a variable rarely
+# occurs twice and is rarely the direct operand of a unary operator; the values are lists of three rows at most mixed with
+# scalars.  This family draws trees over ONE or TWO names (so every name recurs), puts unary operators directly on the
+# variables (also stacked), gives every variable a float64 array of the shape of the result (2..6 rows; some variables stay
+# scalars) and evaluates through both entries: Function.membership (engine values and x) and Function.evaluate (the caller's
+# map).  run_impl watches what a functional model cannot see: the arrays handed in are the same afterwards and a second
+# evaluation agrees with the first.
+UNARY_ON_VARIABLE = [".+", ".-", "~", ".+", ".-", "abs", "floor"]
+
+
+def gen_shared(rng, depth, names):
+    if depth <= 0 or rng.random() < 0.2:
+        if rng.random() < 0.85:
+            t = ["leaf", rng.choice(names)]
+            while rng.random() < 0.4:
+                t = [rng.choice(UNARY_ON_VARIABLE), t]
+            return t
+        return ["leaf", rng.choice(LITS)]
+    r = rng.random()
+    if r < 0.12:
+        return [rng.choice(ARITH1), gen_shared(rng, depth - 1, names)]
+    if r < 0.70:
+        return [rng.choice(ARITH2), gen_shared(rng, depth - 1, names), gen_shared(rng, depth - 1, names)]
+    if r < 0.78:
+        return [rng.choice(FN1), gen_shared(rng, depth - 1, names)]
+    if r < 0.92:
+        return [rng.choice(FN2), gen_shared(rng, depth - 1, names), gen_shared(rng, depth - 1, names)]
+    return [rng.choice(REL), gen_shared(rng, depth - 1, names), gen_shared(rng, depth - 1, names)]
+
+
+def make_shared(rng):
+    """a well-formed formula (kind `wf`, family `shared`) in which the variables recur and are direct operands of unary
+    operators, on float64 arrays of the result's shape, through membership or evaluate"""
+    names = rng.choice([["x"], [rng.choice(ENGINE_NAMES), "x"], [rng.choice(ENGINE_NAMES + OUT_NAMES)],
+                        rng.sample(ENGINE_NAMES + OUT_NAMES, 2), [rng.choice(ENGINE_NAMES), rng.choice(TERM_NAMES), "x"]])
+    while True:
+        tree = gen_shared(rng, rng.choice([1, 2, 2, 3, 3, 4]), names)
+        if rng.random() < 0.1:                    # a truth value as the final result only
+            tree = [rng.choice(["and", "or"]), tree, gen_shared(rng, rng.choice([0, 1, 2]), names)]
+        leaves = [t for t in leaves_of(tree) if not is_number(t)]
+        if len(leaves) > len(set(leaves)):        # some variable occurs at least twice
+            break
+    used = sorted(set(leaves))
+    n = rng.choice([2, 3, 4, 6])
+    evars, fvars, outs = {}, {}, []
+    for nm in used:
+        if nm == "x":
+            continue
+        if nm in TERM_NAMES:
+            fvars[nm] = gen_value(rng)
+        else:
+            evars[nm] = [gen_value(rng) for _ in range(n)] if rng.random() < 0.85 else gen_value(rng)
+            if nm in OUT_NAMES:
+                outs.append(nm)
+    x = [gen_value(rng) for _ in range(n)] if rng.random() < 0.85 else gen_value(rng)
+    if not any(isinstance(v, list) for v in list(evars.values()) + [x]):
+        x = [gen_value(rng) for _ in range(n)]
+    style = rng.choice(["min", "min", "rand", "full"])
+    toks = writing(tree, 0, 0) if style == "min" else writing(tree, 0, 0, rng, 0.2) if style == "rand" else writing(tree, 0, 0, full=True)
+    text = join_tokens(toks, rng if rng.random() < 0.5 else None)
+    return {"kind": "wf", "family": "shared", "route": rng.choice(["membership", "evaluate"]), "style": style, "tree": tree,
+            "text": text, "evars": evars, "fvars": fvars, "outs": outs, "x": x}
+
+
 def literal_sensitive(tree, env):
     """family `literals` only: does moving every literal to a neighbouring double move the (NumPy) value of the tree by
     more than 1e-10?  Then the float result says nothing about the formula (cancellation of the literals' own rounding)"""
@@ -827,6 +953,7 @@ def cases(ctx):
     cs += [make_clash(rng) for _ in range(nw // 12)]
     cs += [make_soup(rng) for _ in range(nw // 5)]
     cs += [make_literals(rng) for _ in range(nw // 10)]       # drawn last: the families above are unchanged for a seed
+    cs += [make_shared(rng) for _ in range(nw // 10)]         # drawn after them
     return cs
 
 
@@ -928,6 +1055,8 @@ def correspond(ctx):
                                    f"{mv if mv == 'unk' else (float(ex) if isinstance(ex, Fr) else ex)!r}, "
                                    f"NumPy on the model's tree {dv!r}")
                             break
+        if bad is None and kind == "wf" and r.get("aliasing"):
+            bad = r["aliasing"]     # the values handed in were changed / a second evaluation differs (seen by run_impl)
         if bad:
             ok, detail = oracle(case)
             if not ok:
@@ -957,7 +1086,7 @@ def search(ctx):
     rng = ctx.rng
     for c in corpus() + [make_wf(rng) for _ in range(ctx.scale(3000, 20000))] + \
             [make_illformed(rng) for _ in range(1000)] + [make_clash(rng) for _ in range(300)] + \
-            [make_literals(rng) for _ in range(ctx.scale(600, 3000))]:
+            [make_literals(rng) for _ in range(ctx.scale(600, 3000))] + [make_shared(rng) for _ in range(ctx.scale(600, 3000))]:
         ok, d = oracle(c)
         if not ok:
             return [(c, d)]
